@@ -321,3 +321,68 @@ func aliasEnumPass(out *Out, cfg *Cfg) {
 		walkGenerated(out, "alias", opts, m.ProtoReflect(), replay, 0)
 	}
 }
+
+
+// deepChainPass: a recursive type whose every level holds a repeated message field and a message-valued map
+// (Node{Node child; repeated Leaf leaves; map<string,Leaf> named; repeated int32 nums}), generated with
+// DisallowNilMessages so that the chain ALWAYS runs down to the nesting limit, with and without NoEmptyLists: what the
+// options promise must hold at every level, in particular at the last levels before the limit (holder at level 9,
+// elements at level 10).
+func deepChainPass(out *Out, cfg *Cfg) {
+	opt := descriptorpb.FieldDescriptorProto_LABEL_OPTIONAL.Enum()
+	rep := descriptorpb.FieldDescriptorProto_LABEL_REPEATED.Enum()
+	msgT := descriptorpb.FieldDescriptorProto_TYPE_MESSAGE.Enum()
+	i32 := descriptorpb.FieldDescriptorProto_TYPE_INT32.Enum()
+	str := descriptorpb.FieldDescriptorProto_TYPE_STRING.Enum()
+	f := func(name string, num int32, label *descriptorpb.FieldDescriptorProto_Label, typ *descriptorpb.FieldDescriptorProto_Type, tn string) *descriptorpb.FieldDescriptorProto {
+		fp := &descriptorpb.FieldDescriptorProto{Name: proto.String(name), JsonName: proto.String(name), Number: proto.Int32(num), Label: label, Type: typ}
+		if tn != "" {
+			fp.TypeName = proto.String(tn)
+		}
+		return fp
+	}
+	entry := &descriptorpb.DescriptorProto{Name: proto.String("NamedEntry"), Options: &descriptorpb.MessageOptions{MapEntry: proto.Bool(true)},
+		Field: []*descriptorpb.FieldDescriptorProto{f("key", 1, opt, str, ""), f("value", 2, opt, msgT, ".verif.deep.Leaf")}}
+	fdp := &descriptorpb.FileDescriptorProto{Name: proto.String("verif/deep.proto"), Package: proto.String("verif.deep"), Syntax: proto.String("proto3"),
+		MessageType: []*descriptorpb.DescriptorProto{
+			{Name: proto.String("Leaf"), Field: []*descriptorpb.FieldDescriptorProto{f("x", 1, opt, i32, "")}},
+			{Name: proto.String("Node"), NestedType: []*descriptorpb.DescriptorProto{entry}, Field: []*descriptorpb.FieldDescriptorProto{
+				f("child", 1, opt, msgT, ".verif.deep.Node"), f("leaves", 2, rep, msgT, ".verif.deep.Leaf"),
+				f("named", 3, rep, msgT, ".verif.deep.Node.NamedEntry"), f("nums", 4, rep, i32, "")}}}}
+	fd, err := protodesc.NewFile(fdp, nil)
+	if err != nil {
+		out.Violate("HARNESS", "deep-schema", err.Error(), "deep-chain")
+		return
+	}
+	node := fd.Messages().ByName("Node")
+	seeds := 12
+	if cfg.Tier == "thorough" {
+		seeds = 300
+	}
+	for seed := 0; seed < seeds; seed++ {
+		sd := int(cfg.Seed)*100000 + 17000 + seed
+		opts := rapidproto.GeneratorOptions{}.WithDisallowNil()
+		oname := "deep+disallownil"
+		if seed%2 == 0 {
+			opts.NoEmptyLists = true
+			oname = "deep+noemptylists+disallownil"
+		}
+		replay := fmt.Sprintf("rapid verif.deep.Node (Node{Node child=1; repeated Leaf leaves=2; map<string,Leaf> named=3; repeated int32 nums=4}, dynamicpb) options=%s seed=%d", oname, sd)
+		var m proto.Message
+		if p, pm := guard(func() { m = genExample(dynamicpb.NewMessage(node), opts, sd) }); p {
+			out.Violate("C18", "gen-panic:deep", "generator failed on a recursive schema: "+firstLine(pm), replay)
+			return
+		}
+		out.Case(replay, true)
+		out.Count("deep_chain_examples")
+		// the chain must reach the nesting limit (DisallowNilMessages): otherwise the pass checks nothing
+		depth := 0
+		for cur := m.ProtoReflect(); cur.Has(node.Fields().ByName("child")); cur = cur.Get(node.Fields().ByName("child")).Message() {
+			depth++
+		}
+		if depth >= 9 {
+			out.Count("deep_chain_reached_level_9")
+		}
+		walkGenerated(out, oname, opts, m.ProtoReflect(), replay, 0)
+	}
+}
